@@ -110,8 +110,10 @@ func init() {
 		Assume: []string{"single client goroutine for the equality clauses: third-party libraries are never entered by two goroutines at once"},
 	}
 	c14 := *props["C02"]
+	c14.Pkgs = dbPkgs + ",runtime,modules"
+	c14.ExtPkgs += ",golang.org/x/sync/errgroup"
 	c14.QuickRuns, c14.ThoroughRuns = 8000, 300000
-	c14.Rule = "one evaluation = one simulated run: 1-3 writer goroutines (put with secret/crown-jewel flags, delete, get, push through an injected database) against 0-4 subscriptions (prefix, condition, privileges, cancel at a chosen moment, cancel twice, two subscriptions from one query object) and 0-3 hooks (declared phases, pass/veto/replace, cancel), backend in {hashmap, fstree, bbolt}; seeded schedule; distinct = distinct hash of configuration; non-trivial = at least 2 goroutine switches"
+	c14.Rule = "one evaluation = one simulated run: 1-3 writer goroutines (put with secret/crown-jewel flags, delete, get, push through an injected database - injected directly or through a runtime registry whose provider was registered before the injection) against 0-4 subscriptions (prefix, condition, privileges, cancel at a chosen moment, cancel twice, two subscriptions from one query object) and 0-3 hooks (declared phases, pass/veto/replace, cancel), backend in {hashmap, fstree, bbolt}; seeded schedule; distinct = distinct hash of configuration; non-trivial = at least 2 goroutine switches"
 	c14.Stub = []string{"injected storage for the push-update path (harness code)"}
 	c14.Assume = nil
 	props["C14"] = &c14
@@ -243,6 +245,9 @@ type replayFile struct {
 	Trace     json.RawMessage `json:"trace,omitempty"`
 	Minimised bool            `json:"minimised"`
 	Crash     bool            `json:"crash,omitempty"`
+	// ContextFrom > 0 (stored +1): the failure reproduces only when the runs from this index up to Run are executed
+	// in one process (state outside the simulator, e.g. memory a library re-uses); replay re-runs that stretch.
+	ContextFrom int `json:"context_from,omitempty"`
 }
 
 type summary struct {
@@ -699,6 +704,18 @@ func confirm(br *buildResult, pc *propCfg, f replayFile) (replayFile, bool) {
 		f.Witness, f.Detail = wit, det
 		return f, true
 	}
+	// last resort: the failure may depend on what the worker process did before this run, through state the simulator
+	// does not own (memory re-used by a library, ...). Re-run the stretch of runs of its chunk up to it.
+	if pc.RunsPerProc > 0 {
+		from := (f.Run / pc.RunsPerProc) * pc.RunsPerProc
+		f.ContextFrom = from + 1
+		cls, wit, det, _ = replayOnce(br, f)
+		if cls == f.Class {
+			f.Witness, f.Detail = wit, det+" (reproduces only after the preceding runs of its worker process, from run "+fmt.Sprint(from)+")"
+			return f, true
+		}
+		f.ContextFrom = 0
+	}
 	return f, false
 }
 
@@ -712,6 +729,29 @@ func replayOnce(br *buildResult, f replayFile) (class, witness, detail string, d
 		code, _ := runWorker(br.Bin, []string{"-test.run", "^TestSim$", "-test.timeout", "0", "-sim.mode", "batch", "-sim.prop", f.Property,
 			"-sim.seed", fmt.Sprint(f.Seed), "-sim.from", fmt.Sprint(f.Run), "-sim.to", fmt.Sprint(f.Run + 1), "-sim.tier", f.Tier, "-sim.out", out}, logp, 3*time.Minute)
 		return f.Class, f.Witness, tail(logp, 1500), code != 0 && code != -2 && code != 3
+	}
+	if f.ContextFrom > 0 {
+		// re-run the stretch [ContextFrom-1, Run] in one process and look for the failure of run Run
+		code, _ := runWorker(br.Bin, []string{"-test.run", "^TestSim$", "-test.timeout", "0", "-sim.mode", "batch", "-sim.prop", f.Property,
+			"-sim.seed", fmt.Sprint(f.Seed), "-sim.from", fmt.Sprint(f.ContextFrom - 1), "-sim.to", fmt.Sprint(f.Run + 1), "-sim.tier", f.Tier, "-sim.out", out, "-sim.perrun", out + ".runs"}, logp, 10*time.Minute)
+		if code != 0 {
+			return "", "", tail(logp, 1500), true
+		}
+		rb, err := os.ReadFile(out + ".runs")
+		if err != nil {
+			return "", "", "", false
+		}
+		// one line per run: "<index> <history hash> <schedule hash> steps=<n> <class>/<witness>"
+		for _, line := range strings.Split(string(rb), "\n") {
+			fs := strings.SplitN(line, " ", 5)
+			if len(fs) == 5 && fs[0] == fmt.Sprint(f.Run) {
+				cw := strings.SplitN(fs[4], "/", 2)
+				if len(cw) == 2 && cw[0] == f.Class {
+					return cw[0], cw[1], f.Detail, false
+				}
+			}
+		}
+		return "", "", "", false
 	}
 	b, _ := json.Marshal(f)
 	_ = os.WriteFile(in, b, 0o644)
